@@ -1,6 +1,7 @@
 #!/bin/bash
 # usage: seed_check.sh <PROP> <patch> [tier]: apply to /repo, run the check, undo
 P=$1; PATCH=$2; TIER=${3:-quick}
+cd /repo && [ -z "$(git status --porcelain --untracked-files=no)" ] || { echo "REPO-DIRTY: commit or stash first"; exit 7; }
 cd /repo && git apply $PATCH || { echo APPLY-FAIL; exit 9; }
 cd /verif && timeout 3000 ./check $P --tier $TIER --no-evidence > /tmp/seedcheck_$P.log 2>&1; rc=$?
 cd /repo && git checkout -- . 
